@@ -44,8 +44,8 @@ struct Sim {
   std::vector<std::string> notes;          // monitor-relevant facts gathered online
   Verdict online;                           // first online violation (e.g. double callback)
   std::string tmpdir;
-  size_t steps = 0, drain_steps = 0; bool stuck = false; bool budget_exhausted = false; bool astronomic = false;
-  size_t c07_checks = 0, c07_multi = 0; size_t idle_spins = 0;
+  size_t steps = 0, drain_steps = 0; bool stuck = false; bool budget_exhausted = false; bool astronomic = false; bool stuck_after_fault = false;
+  size_t c07_checks = 0, c07_multi = 0; size_t idle_spins = 0; int64_t slow_total_us = 0;   // time that passed inside callbacks (the library stamps what it does in one processing call with the time the call began)
   std::vector<int64_t> reconfig_times;     // set_servers / reinit instants (cache must be empty afterwards)
   struct ServerSet { uint64_t ev; std::vector<std::string> list; }; std::vector<ServerSet> server_sets;   // configured lists over time (address strings as the library prints them)
   std::vector<uint64_t> reconfig_ticks; uint64_t tick = 0;   // logical order of events within one virtual instant
@@ -117,7 +117,13 @@ struct Sim {
     else if (s == "cancel") do_cancel();
     else if (s == "newcancel") { start_sub("query"); do_cancel(); }
     else if (s == "cancelnew") { do_cancel(); start_sub("query"); }
-    else if (s == "slownew") { w.now_us += 7200LL * 1000000; start_sub("query"); }   // a slow callback: two hours pass before it starts its follow-up request
+    else if (s == "slownew") { w.now_us += 7200LL * 1000000; slow_total_us += 7200LL * 1000000; start_sub("query"); }
+    else if (s == "again" || s == "slowagain") {
+      // ask the question of the first request of the scenario again from inside this callback (a cache hit or miss decided while a cache-owned record is lent out);
+      // "slow": a few seconds pass inside the callback first
+      if (s == "slowagain") { int64_t d = (int64_t)(1 + (r.id * 7) % 9) * 1000000; w.now_us += d; slow_total_us += d; }
+      if (!order.empty()) { const Req &first = reqs[order.front()]; Req n; n.id = next_sub++; n.kind = "query"; n.name = first.name; n.qtype = first.qtype == 28 || first.qtype == 16 ? first.qtype : 1; n.parent = r.id; n.started_during_cancel = in_cancel; reqs[n.id] = n; order.push_back(n.id); start(reqs[n.id]); }
+    }   // a slow callback: two hours pass before it starts its follow-up request
   }
 
   static void cb_dnsrec(void *arg, ares_status_t status, size_t timeouts, const ares_dns_record_t *rec) { CbArg *a = (CbArg *)arg; Req &r = a->sim->reqs[a->id]; r.api = "dnsrec"; if (r.calls == 0 && !a->sim->destroyed) a->sim->absorb_dnsrec(r, rec); a->sim->completed(r, (int)status, (int)timeouts);
